@@ -267,4 +267,196 @@ theorem ranges_disjoint : ∀ (rs : List (Material × Nat)) (off : Nat),
     simp only [ranges]
     exact List.Pairwise.cons (fun x hx => ranges_ge rest (off + n) x hx) (ranges_disjoint rest (off + n))
 
+/-- `mapM` into `Option` relates the lists element by element. -/
+theorem mapM_index {α β : Type} (f : α → Option β) : ∀ (xs : List α) (ys : List β),
+    xs.mapM f = some ys → ys.length = xs.length ∧ ∀ k (h1 : k < xs.length) (h2 : k < ys.length), f xs[k] = some ys[k]
+  | [], ys, h => by
+    simp only [List.mapM_nil] at h
+    cases h
+    exact ⟨rfl, fun k h1 => absurd h1 (Nat.not_lt_zero k)⟩
+  | x :: xs, ys, h => by
+    rw [List.mapM_cons] at h
+    cases hx : f x with
+    | none => rw [hx] at h; cases h
+    | some y =>
+      rw [hx] at h
+      cases hxs : xs.mapM f with
+      | none => rw [hxs] at h; cases h
+      | some ys' =>
+        rw [hxs] at h
+        cases h
+        obtain ⟨hl, hk⟩ := mapM_index f xs ys' hxs
+        refine ⟨by simp [hl], ?_⟩
+        intro k h1 h2
+        cases k with
+        | zero => simpa using hx
+        | succ k => simpa using hk k (by simpa using h1) (by simpa using h2)
+
+/-- every generated share is longer than one byte. -/
+theorem shareSize_gt_one {g n : Nat} (h : shareSize g = some n) : 1 < n := by
+  unfold shareSize at h
+  split at h
+  · cases h; decide
+  · split at h
+    · cases h; decide
+    · split at h
+      · cases h; decide
+      · split at h
+        · cases h; decide
+        · split at h
+          · cases h; decide
+          · cases h
+
+/-- a marshalled entry is never one the loop would generate again (given the GREASE group is GREASE). -/
+theorem shareWire_not_generated {gg : Nat} (hgg : Grease.isGrease gg = true) {s : SpecShare} {w : Nat × Nat}
+    (h : shareWire gg s = some w) : generated { group := w.1, dataLen := w.2 } = false := by
+  unfold shareWire at h
+  unfold generated
+  by_cases hgr : Grease.isGrease s.group = true
+  · rw [if_pos hgr] at h; cases h; simp [hgg]
+  · rw [if_neg hgr] at h
+    by_cases hd : s.dataLen > 1
+    · rw [if_pos hd] at h; cases h
+      have : ¬ s.dataLen ≤ 1 := by omega
+      simp [this]
+    · rw [if_neg hd] at h
+      cases hsz : shareSize s.group with
+      | none => rw [hsz] at h; cases h
+      | some n =>
+        rw [hsz] at h; cases h
+        have := shareSize_gt_one hsz
+        have : ¬ n ≤ 1 := by omega
+        simp [this]
+
+/-- reads of the loop: what it appends are key reads of the shares at indices ≥ `i`, no material twice. -/
+def keyMaterialFrom (i : Nat) (m : Material) : Prop := ∃ j, i ≤ j ∧ (m = .ecdhe j ∨ m = .mlkem j)
+
+theorem step_reads {gg : Nat} {st st' : Loop} {i : Nat} {s : SpecShare} (h : step gg st i s = some st') :
+    ∃ extra, st'.reads = st.reads ++ extra ∧ (extra.map (·.1)).Nodup ∧
+      (∀ m ∈ extra, m.1 = .ecdhe i ∨ m.1 = .mlkem i) ∧
+      (generated s = true → (.ecdhe i) ∈ extra.map (·.1) ∧ (isHybrid s.group = true → (.mlkem i) ∈ extra.map (·.1))) := by
+  unfold step at h
+  by_cases hgr : Grease.isGrease s.group = true
+  · rw [if_pos hgr] at h; injection h with h; subst h
+    exact ⟨[], (by simp), (by simp), (by intro m hm; cases hm), (by intro hg; simp [generated, hgr] at hg)⟩
+  · rw [if_neg hgr] at h
+    by_cases hd : s.dataLen > 1
+    · rw [if_pos hd] at h; injection h with h; subst h
+      refine ⟨[], (by simp), (by simp), (by intro m hm; cases hm), ?_⟩
+      intro hg
+      simp only [generated, Bool.and_eq_true, decide_eq_true_eq] at hg
+      omega
+    · rw [if_neg hd] at h
+      by_cases hy : isHybrid s.group = true
+      · rw [if_pos hy] at h; injection h with h; subst h
+        refine ⟨[(.ecdhe i, 32), (.mlkem i, 64)], rfl, by simp, ?_, ?_⟩
+        · intro m hm
+          simp only [List.mem_cons, List.not_mem_nil, or_false] at hm
+          rcases hm with rfl | rfl
+          · exact Or.inl rfl
+          · exact Or.inr rfl
+        · intro _; simp
+      · rw [if_neg hy] at h
+        cases hsz : shareSize s.group with
+        | none => rw [hsz] at h; cases h
+        | some n =>
+          rw [hsz] at h; injection h with h; subst h
+          refine ⟨[(.ecdhe i, (keyReads s.group).headD 0)], rfl, by simp, ?_, ?_⟩
+          · intro m hm
+            simp only [List.mem_cons, List.not_mem_nil, or_false] at hm
+            subst hm; exact Or.inl rfl
+          · intro _
+            refine ⟨by simp, ?_⟩
+            intro hh; exact absurd hh hy
+
+theorem loop_reads {gg : Nat} : ∀ (spec : List SpecShare) (st st' : Loop) (i : Nat),
+    loop gg st i spec = some st' →
+    ∃ extra, st'.reads = st.reads ++ extra ∧ (extra.map (·.1)).Nodup ∧ (∀ m ∈ extra, keyMaterialFrom i m.1) ∧
+      (∀ k (hk : k < spec.length), generated spec[k] = true →
+        (.ecdhe (i + k)) ∈ extra.map (·.1) ∧ (isHybrid spec[k].group = true → (.mlkem (i + k)) ∈ extra.map (·.1)))
+  | [], st, st', _, h => by
+    simp only [loop] at h
+    injection h with h; subst h
+    exact ⟨[], (by simp), (by simp), (by intro m hm; cases hm), (by intro k hk; cases hk)⟩
+  | s :: rest, st, st', i, h => by
+    simp only [loop] at h
+    cases hs : step gg st i s with
+    | none => rw [hs] at h; cases h
+    | some st1 =>
+      rw [hs] at h
+      simp only [Option.bind_some] at h
+      obtain ⟨e1, r1, n1, k1, g1⟩ := step_reads hs
+      obtain ⟨e2, r2, n2, k2, g2⟩ := loop_reads rest st1 st' (i + 1) h
+      refine ⟨e1 ++ e2, by rw [r2, r1, List.append_assoc], ?_, ?_, ?_⟩
+      · rw [List.map_append, List.nodup_append]
+        refine ⟨n1, n2, ?_⟩
+        intro a ha b hb hab
+        subst hab
+        obtain ⟨m1, hm1, e⟩ := List.mem_map.mp ha
+        obtain ⟨m2, hm2, e'⟩ := List.mem_map.mp hb
+        obtain ⟨j, hj, hjm⟩ := k2 m2 hm2
+        rw [e'] at hjm
+        rw [← e] at hjm
+        rcases k1 m1 hm1 with h1 | h1 <;> rcases hjm with h2 | h2 <;> rw [h1] at h2 <;> cases h2 <;> omega
+      · intro m hm
+        rw [List.mem_append] at hm
+        rcases hm with hm | hm
+        · rcases k1 m hm with h1 | h1
+          · exact ⟨i, Nat.le_refl _, Or.inl h1⟩
+          · exact ⟨i, Nat.le_refl _, Or.inr h1⟩
+        · obtain ⟨j, hj, hjm⟩ := k2 m hm
+          exact ⟨j, by omega, hjm⟩
+      · intro k hk hgen
+        cases k with
+        | zero =>
+          obtain ⟨a, b⟩ := g1 (by simpa using hgen)
+          refine ⟨?_, ?_⟩
+          · rw [List.map_append, List.mem_append]; exact Or.inl (by simpa using a)
+          · intro hy
+            rw [List.map_append, List.mem_append]; exact Or.inl (by simpa using b (by simpa using hy))
+        | succ k =>
+          have hk' : k < rest.length := by simpa using hk
+          obtain ⟨a, b⟩ := g2 k hk' (by simpa using hgen)
+          have e : i + (k + 1) = i + 1 + k := by omega
+          refine ⟨?_, ?_⟩
+          · rw [List.map_append, List.mem_append, e]; exact Or.inr a
+          · intro hy
+            rw [List.map_append, List.mem_append, e]; exact Or.inr (b (by simpa using hy))
+
+/-- the reads before the loop: distinct pieces of material, none of them key material; session ids exactly
+when the connection is not QUIC. -/
+theorem preReads_facts (quic : Bool) :
+    ((preReads quic).map (·.1)).Nodup ∧
+    (∀ m ∈ preReads quic, ∀ i, m.1 ≠ .ecdhe i ∧ m.1 ≠ .mlkem i) ∧
+    (Material.random, 32) ∈ preReads quic ∧ (Material.grease, 10) ∈ preReads quic ∧
+    (quic = true → ∀ m ∈ preReads quic, m.1 ≠ .sessionId ∧ m.1 ≠ .sessionId0) ∧
+    (quic = false → (Material.sessionId, 32) ∈ preReads quic) := by
+  cases quic
+  · refine ⟨(by decide), ?_, (by decide), (by decide), (by intro h; cases h), (by intro _; decide)⟩
+    intro m hm i
+    simp only [preReads, Bool.false_eq_true, if_false, List.cons_append, List.nil_append, List.mem_cons,
+      List.not_mem_nil, or_false] at hm
+    rcases hm with rfl | rfl | rfl | rfl <;> exact ⟨(by intro h; cases h), (by intro h; cases h)⟩
+  · refine ⟨(by decide), ?_, (by decide), (by decide), ?_, (by intro h; cases h)⟩
+    · intro m hm i
+      simp only [preReads, if_true, List.cons_append, List.nil_append, List.append_nil, List.mem_cons,
+        List.not_mem_nil, or_false] at hm
+      rcases hm with rfl | rfl <;> exact ⟨(by intro h; cases h), (by intro h; cases h)⟩
+    · intro _ m hm
+      simp only [preReads, if_true, List.cons_append, List.nil_append, List.append_nil, List.mem_cons,
+        List.not_mem_nil, or_false] at hm
+      rcases hm with rfl | rfl <;> exact ⟨(by intro h; cases h), (by intro h; cases h)⟩
+
+/-- slices of two streams agree when the streams agree on the slice's range. -/
+theorem slice_congr (s1 s2 : Wire.Bytes) (off len : Nat)
+    (h : ∀ i, off ≤ i → i < off + len → s1[i]? = s2[i]?) : slice s1 off len = slice s2 off len := by
+  unfold slice
+  apply List.ext_getElem?
+  intro k
+  simp only [List.getElem?_take, List.getElem?_drop]
+  by_cases hk : k < len
+  · simp only [hk, if_true]
+    exact h (off + k) (by omega) (by omega)
+  · simp [hk]
+
 end KeyShare
